@@ -7,7 +7,6 @@ import (
 	"fmt"
 	"io"
 	"reflect"
-	"sort"
 	"sync"
 	"testing"
 	"time"
@@ -367,7 +366,7 @@ type clientBase struct {
 func clientCall(s *clientSetup, op *clientOp, seq int, timeout time.Duration) (data string, err error, out callOutcome) {
 	ctx, cancel := context.WithTimeout(context.Background(), timeout)
 	defer cancel()
-	out = guarded(timeout+2*time.Second, func() { data, err = op.call(ctx, s, seq) })
+	out = guarded(timeout+hangSlack, func() { data, err = op.call(ctx, s, seq) })
 	return
 }
 
@@ -376,7 +375,7 @@ func clientCall(s *clientSetup, op *clientOp, seq int, timeout time.Duration) (d
 func untilOK(s *clientSetup, op *clientOp, seq int) (data string, err error, out callOutcome) {
 	deadline := time.Now().Add(3 * time.Second)
 	for {
-		data, err, out = clientCall(s, op, seq, 3*time.Second)
+		data, err, out = clientCall(s, op, seq, 6*time.Second)
 		if err == nil || !out.Returned || out.Panic != nil || op.key != 3 || time.Now().After(deadline) {
 			return
 		}
@@ -450,7 +449,7 @@ func evalClient(tb ev.TB, s *clientSetup, c clientCase, base *clientBase, seq in
 		if len(j) > 2500 {
 			j = "  ...\n" + j[len(j)-2500:]
 		}
-		return ev.Fail(tb, "client", sig, c, "Client.%s (v<=%d), response of %s #%d (handshake=%v) cut after %d of %d bytes (%s; %s), variant %s: "+format+"\njournal:\n%s",
+		return reportFail(tb, "client", sig, c, "Client.%s (v<=%d), response of %s #%d (handshake=%v) cut after %d of %d bytes (%s; %s), variant %s: "+format+"\njournal:\n%s",
 			append(append([]any{c.Op, c.Ver, apiName(c.TKey), c.TIdx, c.Shake, c.K, base.frame.Len, region, field, c.Variant}, args...), j)...)
 	}
 	sig := c.Op
@@ -485,20 +484,19 @@ func evalClient(tb ev.TB, s *clientSetup, c clientCase, base *clientBase, seq in
 			time.AfterFunc(120*time.Millisecond, cancel)
 		}
 		s.mu.Unlock()
-		out = guarded(5*time.Second, func() { data, err = op.call(ctx, s, seq*2+1) })
+		out = guarded(3*time.Second+hangSlack, func() { data, err = op.call(ctx, s, seq*2+1) })
 		cancel()
 		hmu.Lock()
 		if out.Returned && !hitAt.IsZero() && time.Since(hitAt) > 120*time.Millisecond+2*time.Second {
-			out.Returned = false
-			out.Took = time.Since(hitAt)
+			ev.Inconclusive("returned_late_after_deadline")
 		}
 		hmu.Unlock()
 	} else {
-		data, err, out = clientCall(s, op, seq*2+1, 3*time.Second)
+		data, err, out = clientCall(s, op, seq*2+1, 6*time.Second)
 	}
 	s.disarm()
 	if !out.Returned {
-		fail("c17/hang/client/"+sig, "the call did not return within its deadline + 2 s (waited %v)", out.Took)
+		fail("c17/hang/client/"+sig, "the call did not return within its deadline + %v (waited %v)", hangSlack, out.Took)
 		return
 	}
 	if out.Panic != nil {
@@ -720,7 +718,7 @@ type bareBroker struct {
 	raw  bool // sasl-raw: no kafka framing
 	// observations
 	targetConns []int
-	cutConns    map[int]bool
+	cutConns    map[int]bool // connections whose response ended before its last byte
 }
 
 const bareAddr = "g.fake:9092"
@@ -907,7 +905,7 @@ func apiFail(tb ev.TB, c apiCase, fi *frameInfo, sig, format string, args ...any
 	if fi != nil {
 		region, field = fi.regionOf(c.K)
 	}
-	return ev.Fail(tb, "api", sig, c, "%s v%d response (%d bytes) through %s cut after %d bytes (%s; %s), variant %s: "+format,
+	return reportFail(tb, "api", sig, c, "%s v%d response (%d bytes) through %s cut after %d bytes (%s; %s), variant %s: "+format,
 		append([]any{a.Name, c.Ver, len(c.FrameHex) / 2, c.Level, c.K, region, field, c.Variant}, args...)...)
 }
 
@@ -933,10 +931,10 @@ func evalProtocol(tb ev.TB, b *bareBroker, c apiCase, frame []byte, fi *frameInf
 	pc.SetVersions(versions)
 	pc.SetDeadline(time.Now().Add(3 * time.Second))
 	var msg protocol.Message
-	out := guarded(5*time.Second, func() { msg, err = pc.RoundTrip(req) })
+	out := guarded(3*time.Second+hangSlack, func() { msg, err = pc.RoundTrip(req) })
 	sig := fmt.Sprintf("%s/%s/v%d", c.Level, a.Name, c.Ver)
 	if !out.Returned {
-		apiFail(tb, c, fi, "c17/hang/"+sig, "RoundTrip did not return within its deadline + 2 s")
+		apiFail(tb, c, fi, "c17/hang/"+sig, "RoundTrip did not return within its deadline + 10 s")
 		return
 	}
 	if out.Panic != nil {
@@ -977,9 +975,9 @@ func evalTransport(tb ev.TB, b *bareBroker, tr *kafka.Transport, c apiCase, fram
 	var msg kafka.Response
 	var err error
 	ev.InFlight("api", c)
-	out := guarded(5*time.Second, func() { msg, err = tr.RoundTrip(ctx, kafka.TCP(bareAddr), apiRequest(c.Key)) })
+	out := guarded(3*time.Second+hangSlack, func() { msg, err = tr.RoundTrip(ctx, kafka.TCP(bareAddr), apiRequest(c.Key)) })
 	if !out.Returned {
-		apiFail(tb, c, fi, "c17/hang/"+sig, "RoundTrip did not return within its deadline + 2 s")
+		apiFail(tb, c, fi, "c17/hang/"+sig, "RoundTrip did not return within its deadline + 10 s")
 		return
 	}
 	if out.Panic != nil {
@@ -1007,24 +1005,8 @@ func evalTransport(tb ev.TB, b *bareBroker, tr *kafka.Transport, c apiCase, fram
 			return
 		}
 	}
-	// a connection whose response was cut carries no later request
-	b.mu.Lock()
-	seen := map[int]int{}
-	for _, id := range b.targetConns {
-		seen[id]++
-	}
-	var reused []int
-	for id, n := range seen {
-		if n > 1 && b.cutConns[id] {
-			reused = append(reused, id)
-		}
-	}
-	b.mu.Unlock()
-	sort.Ints(reused)
-	if len(reused) > 0 {
-		apiFail(tb, c, fi, "c17/transport-reused-connection/"+sig, "connection(s) %v carried another %s request after their response had been cut", reused, a.Name)
-		return
-	}
+	// a connection whose response was cut carries nothing afterwards (its handler is gone: what the
+	// client still writes on it is counted by the network)
 	for _, cs := range b.nw.Conns() {
 		b.mu.Lock()
 		cut := b.cutConns[cs.ID]
@@ -1182,7 +1164,7 @@ func TestEveryAPI(t *testing.T) {
 		evalTransport(t, b, tr, c, frame, fi)
 		b.set(-1, false)
 		ctx0, cancel0 := context.WithTimeout(context.Background(), 3*time.Second)
-		guarded(5*time.Second, func() { tr.RoundTrip(ctx0, kafka.TCP(bareAddr), apiRequest(a.Key)) })
+		guarded(3*time.Second+hangSlack, func() { tr.RoundTrip(ctx0, kafka.TCP(bareAddr), apiRequest(a.Key)) })
 		cancel0()
 		for i, k := range tks {
 			if k >= len(frame) {
@@ -1199,7 +1181,7 @@ func TestEveryAPI(t *testing.T) {
 		b.set(-1, false)
 		ctx, cancel := context.WithTimeout(context.Background(), 3*time.Second)
 		var rerr error
-		out := guarded(5*time.Second, func() { _, rerr = tr.RoundTrip(ctx, kafka.TCP(bareAddr), apiRequest(a.Key)) })
+		out := guarded(3*time.Second+hangSlack, func() { _, rerr = tr.RoundTrip(ctx, kafka.TCP(bareAddr), apiRequest(a.Key)) })
 		cancel()
 		if !out.Returned || out.Panic != nil {
 			apiFail(t, c, fi, fmt.Sprintf("c17/hang-after-cut/transport/%s/v%d", a.Name, ver), "the uncut exchange after the cut ones did not return normally (returned=%v panic=%v)", out.Returned, out.Panic)
